@@ -84,7 +84,7 @@ Fixpoint tysem (T : ty) : sty :=
   | TConst n args =>
       let a := map tysem args in
       if String.eqb n "bool" then match a with [] => SB | _ => SC n a end
-      else if String.eqb n "fun" then match a with [x; y] => SF x y | _ => SC n a end
+      else if String.eqb n "fun" then match a with x :: y :: _ => SF x y | _ => SC n a end
       else SC n a
   end.
 
